@@ -339,7 +339,6 @@ func headerName(e ast.Expr) string {
 func factsCompress()   {}
 func factsServer()     {}
 func factsMain()       {}
-func factsLocks()      {}
 
 // ---------------------------------------------------------------- cache/dispatcher.go
 func factsDispatcher() {
